@@ -182,23 +182,27 @@ Section Model.
     Variable rec : nat -> list N -> value -> option json.
     Variable ps : list N.
     Variable all : list (option value).
+    (** one field: [None] = write error, [Some None] = no member, [Some (Some m)] = the member *)
+    Definition jw_field (fd : field) (fi : jfinfo) (ov : option value) : option (option (json * json)) :=
+      let present := field_present ps all fd in
+      match ov with
+      | Some v =>
+          if negb present then None else
+          bind_opt (rec (f_ty fd) (eval_args ps all (f_args fd)) v) (fun j =>
+          Some (if jf_bit fi then Some (JStr (jf_name fi), JBool true)
+                else if is_true_type (f_ty fd) then None
+                else if is_some (f_mask fd) || nonempty (f_ty fd) v then Some (JStr (jf_name fi), j)
+                else None))
+      | None => if present then None else Some None
+      end.
     Fixpoint jw_fields (fds : list field) (fis : list jfinfo) (vs : list (option value)) {struct vs}
       : option (list (json * json)) :=
       match fds, fis, vs with
       | [], [], [] => Some []
       | fd :: fds', fi :: fis', ov :: vs' =>
-          let present := field_present ps all fd in
-          match ov with
-          | Some v =>
-              if negb present then None else
-              bind_opt (rec (f_ty fd) (eval_args ps all (f_args fd)) v) (fun j =>
-              bind_opt (jw_fields fds' fis' vs') (fun rest =>
-                if jf_bit fi then Some ((JStr (jf_name fi), JBool true) :: rest)
-                else if is_true_type (f_ty fd) then Some rest
-                else if is_some (f_mask fd) || nonempty (f_ty fd) v then Some ((JStr (jf_name fi), j) :: rest)
-                else Some rest))
-          | None => if present then None else jw_fields fds' fis' vs'
-          end
+          bind_opt (jw_field fd fi ov) (fun om =>
+          bind_opt (jw_fields fds' fis' vs') (fun rest =>
+          Some (match om with Some m => m :: rest | None => rest end)))
       | _, _, _ => None
       end.
   End WFields.
@@ -688,45 +692,49 @@ Section Model.
     Variable sets : list bool.
     Variable adds : list (nat * N).
 
-    (** one pass over the fields in schema order; [acc] = wire values of the fields before [idx],
-        with every local mask already holding its final value *)
+    (** one field, given the wire values [acc] of the fields before it (every local mask already holds
+        its final value): the wire value of the field, [None] when WriteTL1 skips it *)
+    Definition jr_field (fd : field) (fi : jfinfo) (idx : nat) (acc : list (option value)) : jres (option value) :=
+      let oj := jfind (jf_name fi) ms in
+      let args := eval_args ps acc (f_args fd) in
+      let bit1 := field_present ps acc fd in
+      let masked := is_some (f_mask fd) in
+      let goval : jres value :=
+        if jf_bit fi then
+          (* BLOCK: trueType with false values validation (types without TL2 only) *)
+          if negb tl2 && is_some oj && negb (nth idx sets false) && bit1 then JReject
+          else JOk (VStruct [])
+        else
+          match oj with
+          | Some j => jbind (rec (f_ty fd) args (Some j)) (fun v => JOk (or_nat v (add_bits_of idx adds)))
+          | None =>
+              match f_args fd with
+              | [] => jbind (rst (f_ty fd) []) (fun v => JOk (or_nat v (add_bits_of idx adds)))
+              | _ =>
+                  if (if masked then (if tl2 then mask_bit_before allfis ms ps fd else bit1) else true)
+                  then rec (f_ty fd) args None
+                  else rst (f_ty fd) args
+              end
+          end in
+      if masked && negb bit1 && negb (is_some oj) && negb (jf_bit fi) && negb (is_nat_type (f_ty fd))
+      then JOk None                                   (* absent and switched off: nothing is read *)
+      else
+      jbind goval (fun v =>
+      if masked && negb bit1 then
+        (* Go keeps [v] in the struct but WriteTL1 skips it *)
+        if is_nat_type (f_ty fd) && field_referenced idx allfds
+           && negb (match v with VNum 0 => true | _ => false end)
+        then JUnrep
+        else JOk None
+      else JOk (Some v)).
+
+    (** one pass over the fields in schema order *)
     Fixpoint jr_fields (fds : list field) (fis : list jfinfo) (idx : nat) (acc : list (option value))
       : jres (list (option value)) :=
       match fds, fis with
       | [], [] => JOk acc
       | fd :: fds', fi :: fis' =>
-          let oj := jfind (jf_name fi) ms in
-          let args := eval_args ps acc (f_args fd) in
-          let bit1 := field_present ps acc fd in
-          let masked := is_some (f_mask fd) in
-          let goval : jres value :=
-            if jf_bit fi then
-              (* BLOCK: trueType with false values validation (types without TL2 only) *)
-              if negb tl2 && is_some oj && negb (nth idx sets false) && bit1 then JReject
-              else JOk (VStruct [])
-            else
-              match oj with
-              | Some j => jbind (rec (f_ty fd) args (Some j)) (fun v => JOk (or_nat v (add_bits_of idx adds)))
-              | None =>
-                  match f_args fd with
-                  | [] => jbind (rst (f_ty fd) []) (fun v => JOk (or_nat v (add_bits_of idx adds)))
-                  | _ =>
-                      if (if masked then (if tl2 then mask_bit_before allfis ms ps fd else bit1) else true)
-                      then rec (f_ty fd) args None
-                      else rst (f_ty fd) args
-                  end
-              end in
-          if masked && negb bit1 && negb (is_some oj) && negb (jf_bit fi) && negb (is_nat_type (f_ty fd))
-          then jr_fields fds' fis' (S idx) (acc ++ [None])      (* absent and switched off: nothing is read *)
-          else
-          jbind goval (fun v =>
-          if masked && negb bit1 then
-            (* Go keeps [v] in the struct but WriteTL1 skips it *)
-            if is_nat_type (f_ty fd) && field_referenced idx allfds
-               && negb (match v with VNum 0 => true | _ => false end)
-            then JUnrep
-            else jr_fields fds' fis' (S idx) (acc ++ [None])
-          else jr_fields fds' fis' (S idx) (acc ++ [Some v]))
+          jbind (jr_field fd fi idx acc) (fun o => jr_fields fds' fis' (S idx) (acc ++ [o]))
       | _, _ => JReject
       end.
   End RFields.
@@ -915,6 +923,61 @@ Section Model.
         | Some (_, _) => JReject
         end
     end.
+  (** ** well-formedness of an annotated schema (boolean; evaluated on every kernel dump by the checks) *)
+  (** a name the escaper leaves alone: safe ASCII only *)
+  Definition name_plain (nm : bytes) : bool := forallb (fun b => (b <? 128) && safe b) nm.
+
+  Fixpoint names_distinct (l : list bytes) : bool :=
+    match l with
+    | [] => true
+    | a :: r => negb (existsb (bytes_eqb a) r) && names_distinct r
+    end.
+
+  Definition field_ann_ok (p : field * jfinfo) : bool :=
+    name_plain (jf_name (snd p))
+    && (if jf_bit (snd p) then is_some (f_mask (fst p)) && is_true_type (f_ty (fst p)) else true).
+
+  Definition variant_fields (vt : nat) : option (list field * bool) :=
+    match nth_error js vt with
+    | Some (TStruct _ fds, AStruct _ td _) => Some (fds, td)
+    | _ => None
+    end.
+
+  Definition ann_ok (p : tydef * jann) : bool :=
+    match p with
+    | (TStruct _ fds, AStruct _ td fis) =>
+        Nat.eqb (length fds) (length fis) && forallb field_ann_ok (combine fds fis)
+        && names_distinct (map jf_name fis)
+        && (if td then match fds with [fd] => negb (is_some (f_mask fd)) | _ => false end else true)
+    | (TUnion vars, AUnion tl2 is_enum is_maybe vns) =>
+        Nat.eqb (length vars) (length vns)
+        && forallb (fun vn => name_plain (vn_tl vn) && name_plain (vn_var vn)) vns
+        && forallb (fun vt => is_some (variant_fields vt)) vars
+        && (if is_maybe then
+              match vars with
+              | [v0; v1] =>
+                  match variant_fields v0, variant_fields v1 with
+                  | Some ([], false), Some ([fd], _) => negb (is_some (f_mask fd))
+                  | _, _ => false
+                  end
+              | _ => false
+              end
+            else
+              (* the name the writer emits for a variant is read back as that variant *)
+              forallb (fun i => match nth_error vars i, nth_error vns i with
+                                | Some vt, Some vn =>
+                                    match find_tag tl2 vars vns (wname vn) 0 with
+                                    | Some (i', vt', legacy) => Nat.eqb i' i && Nat.eqb vt' vt && negb legacy
+                                    | None => false
+                                    end
+                                | _, _ => false
+                                end) (seq 0 (length vars)))
+        && (if is_enum then forallb (fun vt => match variant_fields vt with Some ([], _) => true | _ => false end) vars else true)
+    | (TPrim _, _) | (TArray _ _, _) | (TDict _ _, _) => true
+    | _ => false
+    end.
+
+  Definition wf_jschema : bool := wf_schema (sch js) && forallb ann_ok js.
 End Model.
 
 Arguments JOk {A} a.
